@@ -578,6 +578,28 @@ func (e *Engine) checkEvents(s *Sys, class string) *Violation {
 			}
 		}
 	}
+	// values seen and written by the listener at delivery (in delivery order)
+	for i := range got {
+		g := &got[i]
+		if g.ValT < 0 {
+			continue
+		}
+		me := e.M.ByH[g.Ent]
+		if me == nil || !me.Has(g.ValT) {
+			continue // reported by the set comparison
+		}
+		if s.Name != "primary" {
+			continue // the twin's listener does the same; its values are compared with the model like everything else
+		}
+		if want := me.Val[g.ValT]; string(g.ValAtDelivery) != string(want) {
+			v := e.v(s, class, "event %s: at delivery component %d read %x, the operation had given it %x (events come after the change)", fmtEv(&g.MEv), g.ValT, g.ValAtDelivery, want)
+			v.Also = append(v.Also, "value") // a Get pointer that does not show the value last written is C01's business too
+			return v
+		}
+		me.Val[g.ValT] = append([]byte{}, g.Wrote...)
+		e.touched[g.Ent] = true
+		e.St.Probes["listener-wrote-value"]++
+	}
 	gl := make([]MEv, len(got))
 	for i := range got {
 		gl[i] = got[i].MEv
